@@ -438,6 +438,19 @@ func decide(fa *core.Facts, info *types.Info, kind string, n ast.Node, st *core.
 				}
 			}
 		}
+		// e.(error) on the value of recover() in the deferred handler of the function that
+		// runs the arithmetic parser: PF5 shows that only run-time errors can be recovered there
+		if tt, ok := info.Types[ta.Type]; ok && tt.Type != nil && tt.Type.String() == "error" && fa.F.Pkg.Name == "interp" && fa.F.Lit != nil {
+			if id, ok := ast.Unparen(ta.X).(*ast.Ident); ok {
+				if d := localDef(fa.F, info, info.Uses[id]); d != nil {
+					if call, ok := ast.Unparen(d).(*ast.CallExpr); ok && isBuiltinCall(info, call, "recover") {
+						if _, isDefer := c.P.Parent(c.P.Parent(fa.F.Lit)).(*ast.DeferStmt); isDefer && c.callsYyParseDirectly(fa.F.Parent) {
+							return core.BoundsResult{OK: true, Inv: "evaluator-recovers", Why: "only run-time errors (division by zero, negative shift) can be recovered here (PF5)"}
+						}
+					}
+				}
+			}
+		}
 		return core.BoundsResult{Why: "single-value type assertion; dynamic type not established by a guard"}
 	case "DIV":
 		if st == nil {
@@ -607,4 +620,25 @@ func DumpPF1(c *Ctx) {
 			fmt.Printf("%s\t%s\t%s\t%s\n", f.Name, s.kind, s.raw, s.expr)
 		}
 	}
+}
+
+func (c *Ctx) callsYyParseDirectly(f *core.Func) bool {
+	if f == nil || f.Body == nil {
+		return false
+	}
+	found := false
+	for _, st := range f.Body.List {
+		ast.Inspect(st, func(n ast.Node) bool {
+			if _, isLit := n.(*ast.FuncLit); isLit {
+				return false
+			}
+			if call, ok := n.(*ast.CallExpr); ok {
+				if id, ok := call.Fun.(*ast.Ident); ok && id.Name == "yyParse" {
+					found = true
+				}
+			}
+			return true
+		})
+	}
+	return found
 }
